@@ -1,7 +1,7 @@
 import Pyrealb.Lemmas.JsonRoundtrip
 import Pyrealb.Lemmas.JsonText
 import Pyrealb.Lemmas.JsonSource
-import Pyrealb.Lemmas.SourceText
+import Pyrealb.Lemmas.JsonSourceText
 import Pyrealb.Lemmas.JsonExact
 /-! # C12 — JSON and source-text serializations round-trip
 
@@ -93,21 +93,21 @@ theorem json_text_roundtrip_partial (env : Env) (cur : Lang) (e : Expr) (h : (to
   unfold routeJsonText routeJson
   simp only [h, if_true, readJ_printJ _ h]
 
-/-- evaluating the printed source rebuilds the expression EXACTLY (state and history) when every constituent is of the
-    current language and is what its own call history makes of its constructor's result (`WFS`), and the text is one
-    the printer does not corrupt (`SrcOK`: lemmata and tag names free of `"`, `\` and line breaks; option values whose
-    `repr` the model covers, no `datetime`). Text level: `parseSrc (toSource e) = progOf e` (`parseSrc_toSource`, by
-    structural induction on `e`); evaluation level: `build (progOf e) = e` (`build_progOf`). -/
-theorem source_roundtrip_partial (env : Env) (cur : Lang) (e : Expr) (h : WFS env cur e) (hs : SrcOK e) :
+/-- evaluating the printed source rebuilds the expression EXACTLY (state and history) when the language of the ROOT is
+    the current one (it cannot be printed), every constituent is what its own call history makes of its constructor's
+    result (`WFS`) and the option values have a `repr` the model covers (`SrcOK`: no `datetime`). Lemmata and tag names
+    are unrestricted (escaped since a4c65f5), sub-expressions of the other language carry `lang=` (09cd540).
+    Text level: `parseSrc (toSource e) = progOf e` (`parseSrc_toSource`); evaluation level: `build (progOf e) = e`. -/
+theorem source_roundtrip_partial (env : Env) (cur : Lang) (e : Expr) (h : WFS env e) (hs : SrcOK e) (hl : e.lang = cur) :
     routeSource env cur e = .ok (e, 0) := by
   unfold routeSource
-  rw [parseSrc_toSource cur e hs]
-  exact build_progOf env cur e cur h
+  rw [parseSrc_toSource cur e hs hl]
+  exact build_progOf env e cur h
 
 /-- … hence the same source and the same JSON again -/
-theorem source_stable_partial (env : Env) (cur : Lang) (e : Expr) (h : WFS env cur e) (hs : SrcOK e) :
+theorem source_stable_partial (env : Env) (cur : Lang) (e : Expr) (h : WFS env e) (hs : SrcOK e) (hl : e.lang = cur) :
     ∃ e' m, routeSource env cur e = .ok (e', m) ∧ toSource e' = toSource e ∧ toJSON none e' = toJSON none e :=
-  ⟨e, 0, source_roundtrip_partial env cur e h hs, rfl, rfl⟩
+  ⟨e, 0, source_roundtrip_partial env cur e h hs hl, rfl, rfl⟩
 
 /-- the same SOURCE again after a JSON round trip — indeed the very same expression, state and history — when in
     addition to `WFJ` every history is canonical (`CanonJ`: the constructor's calls, then one group of calls per entry
@@ -171,29 +171,32 @@ theorem json_text_roundtrip_refuted : ¬ json_text_roundtrip := by
       obs (fun _ => []) (routeJson envNone .en (built progDt)) := by rw [h1]
   exact absurd h2 (by decide +kernel)
 
-/-- `Q('say "hi"')` : `toSource` prints the lemma unescaped between double quotes: `Q("say "hi"")` is a SyntaxError -/
-def progQuote : Prog := .term (s "Q") (.str (s "say \"hi\"")) .en
+/-- `Q("x")` built as a FRENCH constituent and evaluated while English is current: the language of the root is not
+    printed (the source is evaluated under the current language), the result is an English constituent -/
+def progFr : Prog := .term (s "Q") (.str (s "x")) .fr
 
-theorem built_progQuote : Built envNone (built progQuote) := ⟨progQuote, .en, by rfl⟩
+theorem built_progFr : Built envNone (built progFr) := ⟨progFr, .en, by rfl⟩
 
 theorem source_roundtrip_refuted : ¬ source_roundtrip := by
   intro h
-  obtain ⟨e', m, h1, _⟩ := h envNone .en (built progQuote) built_progQuote
-  have h2 : obs (fun _ => []) (routeSource envNone .en (built progQuote)) = some [] := by rw [h1]; rfl
-  exact absurd h2 (by decide +kernel)
-
-/-- `Q('tab\\there')` (a backslash followed by `t`) : the printed `Q("tab\\there")` evaluates to a lemma with a TAB,
-    which prints differently -/
-def progBackslash : Prog := .term (s "Q") (.str (s "tab\\there")) .en
-
-theorem built_progBackslash : Built envNone (built progBackslash) := ⟨progBackslash, .en, by rfl⟩
+  obtain ⟨e', m, h1, h2⟩ := h envNone .en (built progFr) built_progFr
+  have h3 : obs jsonText (routeSource envNone .en (built progFr)) = some (jsonText (built progFr)) := by
+    rw [h1]; simp [obs, jsonText, toJSON_congr_abs h2 none]
+  exact absurd h3 (by decide +kernel)
 
 theorem source_stable_refuted : ¬ source_stable := by
   intro h
-  obtain ⟨e', m, h1, h2, _⟩ := h envNone .en (built progBackslash) built_progBackslash
-  have h3 : obs toSource (routeSource envNone .en (built progBackslash)) = some (toSource (built progBackslash)) := by
-    rw [h1]; simp [obs, h2]
+  obtain ⟨e', m, h1, _, h2⟩ := h envNone .en (built progFr) built_progFr
+  have h3 : obs jsonText (routeSource envNone .en (built progFr)) = some (jsonText (built progFr)) := by
+    rw [h1]; simp [obs, jsonText, h2]
   exact absurd h3 (by decide +kernel)
+
+/-- the former witnesses (`Q('say "hi"')`, a backslash followed by `t`) round-trip since the repair a4c65f5 (tests) -/
+def progQuote : Prog := .term (s "Q") (.str (s "say \"hi\"")) .en
+def progBackslash : Prog := .term (s "Q") (.str (s "tab\\there")) .en
+example : obs toSource (routeSource envNone .en (built progQuote)) = some (toSource (built progQuote)) := by decide +kernel
+example : obs jsonText (routeSource envNone .en (built progBackslash)) = some (jsonText (built progBackslash)) := by
+  decide +kernel
 
 /-- `Q("x").cap(True).cap(False)` : the JSON records the final state `cap: false`, the source the two calls -/
 def progTwice : Prog := .call (.call (.term (s "Q") (.str (s "x")) .en) (s "cap") [.atom (.bool true)]) (s "cap") [.atom (.bool false)]
@@ -247,14 +250,13 @@ example : WFJ envNone exS := by
     intro h; rcases h with h | h <;> exact absurd h (by decide)
   · exact ⟨by decide, by decide, [], [], by rfl, Replays.nil⟩
 
-example : WFS envNone .en exS := by
+example : WFS envNone exS := by
   refine ⟨⟨by rfl, by rfl, trivial⟩, by rfl⟩
 
 example : SrcOK exS := by
-  have clean : ∀ x : Str, (∀ c ∈ x, c ≠ '"' ∧ c ≠ '\\' ∧ c ≠ '\n') → SrcCleanStr x := fun _ h => h
   have repr : ∀ x : Str, (∀ c ∈ x, ¬ (c.toNat < 32 ∨ c.toNat = 127) ∨ c = '\n' ∨ c = '\r' ∨ c = '\t') → ReprOK x :=
     fun _ h => h
-  refine ⟨by decide, ?_, ⟨by decide, clean _ (by decide), ?_⟩, ⟨by decide, clean _ (by decide), ?_⟩, trivial⟩
+  refine ⟨by decide, ?_, ⟨by decide, ?_⟩, ⟨by decide, ?_⟩, trivial⟩
   · intro c hc
     simp at hc
     rcases hc with rfl | rfl
